@@ -903,4 +903,274 @@ theorem setFlags_blank_noMerge_idem [Geo V N] {dim3 : Bool} {vs : List V} {idx :
   rw [hb, hq]
   simp [ev, ei]
 
+/-! ## after `delete_bad_topology_triangles` the topology computation cannot fail -/
+
+theorem alookup_cons {α β} [BEq α] (k k' : α) (v : β) (r : List (α × β)) :
+    alookup k ((k', v) :: r) = if k == k' then some v else alookup k r := by
+  rw [alookup]
+
+theorem addHalfEdge_of_fresh (st : TopoState) (fid base k v vnext : Nat) (h : alookup (v, vnext) st.map = none) :
+    addHalfEdge st fid base k v vnext =
+      if v < st.tv.length then
+        .ok { st with hes := st.hes ++ [{ next := base + (k + 1) % 3, twin := umax, vertex := v, face := fid }],
+                      map := ((v, vnext), base + k) :: st.map, tv := st.tv.set v (base + k) }
+      else .panic := by
+  unfold addHalfEdge
+  simp only [h]
+
+theorem pair_ne_of_ne_left {a b c d : Nat} (h : a ≠ c) : ((a, b) == (c, d)) = false := by
+  simp [h]
+theorem pair_ne_of_ne_right {a b c d : Nat} (h : b ≠ d) : ((a, b) == (c, d)) = false := by
+  simp [h]
+
+theorem topoFaces_cons (t : Tri) (ts : List Tri) (fid : Nat) (st : TopoState) :
+    topoFaces (t :: ts) fid st =
+      if isDegenerate t then .err (.badTriangle fid) else
+      match addHalfEdge st fid st.hes.length 0 t.a t.b with
+      | .panic => .panic
+      | .err e => .err e
+      | .ok st1 =>
+      match addHalfEdge st1 fid st.hes.length 1 t.b t.c with
+      | .panic => .panic
+      | .err e => .err e
+      | .ok st2 =>
+      match addHalfEdge st2 fid st.hes.length 2 t.c t.a with
+      | .panic => .panic
+      | .err e => .err e
+      | .ok st3 => topoFaces ts (fid + 1) { st3 with faces := st3.faces ++ [st.hes.length] } := by
+  rw [topoFaces]
+  rfl
+
+theorem topoFaces_deleteBad_no_err (idx : List Tri) (S : List (Nat × Nat)) (fid : Nat) (st : TopoState)
+    (hk : ∀ e, S.contains e = false → alookup e st.map = none) :
+    ∀ e, topoFaces (deleteBadLoop idx S) fid st ≠ .err e := by
+  induction idx generalizing S fid st with
+  | nil => intro e h; simp [deleteBadLoop, topoFaces] at h
+  | cons t ts ih =>
+    rw [deleteBadLoop_cons]
+    by_cases hdeg : isDegenerate t = true
+    · simp only [hdeg, if_true]; exact ih S fid st hk
+    · have hdeg' : isDegenerate t = false := by simpa using hdeg
+      by_cases hhit : (S.contains (t.a, t.b) || S.contains (t.b, t.c) || S.contains (t.c, t.a)) = true
+      · simp only [hdeg', hhit, if_true, Bool.false_eq_true, if_false]; exact ih S fid st hk
+      · have hhit0 : (S.contains (t.a, t.b) || S.contains (t.b, t.c) || S.contains (t.c, t.a)) = false := by simpa using hhit
+        simp only [hdeg', hhit0, Bool.false_eq_true, if_false]
+        have h1 : S.contains (t.a, t.b) = false := by cases h : S.contains (t.a, t.b) <;> simp_all
+        have h2 : S.contains (t.b, t.c) = false := by cases h : S.contains (t.b, t.c) <;> simp_all
+        have h3 : S.contains (t.c, t.a) = false := by cases h : S.contains (t.c, t.a) <;> simp_all
+        -- the three corners are pairwise distinct
+        have hd := hdeg'
+        simp only [isDegenerate, Bool.or_eq_false_iff, beq_eq_false_iff_ne, ne_eq] at hd
+        obtain ⟨⟨hab, hac⟩, hbc⟩ := hd
+        intro e
+        rw [topoFaces_cons]
+        simp only [hdeg', Bool.false_eq_true, if_false]
+        rw [addHalfEdge_of_fresh _ _ _ _ _ _ (hk _ h1)]
+        by_cases hv1 : t.a < st.tv.length
+        · simp only [hv1, if_true]
+          rw [addHalfEdge_of_fresh _ _ _ _ _ _ (by
+            simp only [alookup_cons]
+            rw [pair_ne_of_ne_left (Ne.symm hab)]
+            simpa using hk _ h2)]
+          simp only [List.length_set]
+          by_cases hv2 : t.b < st.tv.length
+          · simp only [hv2, if_true]
+            rw [addHalfEdge_of_fresh _ _ _ _ _ _ (by
+              simp only [alookup_cons]
+              rw [pair_ne_of_ne_left (Ne.symm hbc), pair_ne_of_ne_left (Ne.symm hac)]
+              simpa using hk _ h3)]
+            simp only [List.length_set]
+            by_cases hv3 : t.c < st.tv.length
+            · simp only [hv3, if_true]
+              apply ih
+              intro e' he'
+              simp only [List.contains_cons, Bool.or_eq_false_iff] at he'
+              obtain ⟨e1, e2, e3, e4⟩ := he'
+              simp only [alookup_cons, e1, e2, e3, Bool.false_eq_true, if_false]
+              exact hk _ e4
+            · simp [hv3]
+          · simp [hv2]
+        · simp [hv1]
+
+/-- `DELETE_BAD_TOPOLOGY_TRIANGLES` does what its name says: on the index buffer it leaves, `compute_topology`
+never returns a `TopologyError` -/
+theorem computeTopology_deleteBad_no_err (nv : Nat) (idx : List Tri) :
+    ∀ e, computeTopology nv (deleteBad idx) ≠ .err e := by
+  intro e h
+  unfold computeTopology at h
+  split at h
+  · cases h
+  · rename_i e' he
+    exact topoFaces_deleteBad_no_err idx [] 0 _ (fun _ _ => rfl) e' he
+  · split at h <;> cases h
+
+/-! ## the code as written: the `set_flags` calls that do preserve coherence -/
+
+@[simp] theorem dropStageW_vertices (dim3 : Bool) (s : Mesh V N) (f : Flags) : (dropStageW dim3 s f).vertices = s.vertices := by
+  unfold dropStageW; split <;> split <;> split <;> rfl
+@[simp] theorem dropStageW_indices (dim3 : Bool) (s : Mesh V N) (f : Flags) : (dropStageW dim3 s f).indices = s.indices := by
+  unfold dropStageW; split <;> split <;> split <;> rfl
+theorem dropStageW_topology (dim3 : Bool) (s : Mesh V N) (f : Flags) :
+    (dropStageW dim3 s f).topology = if f.het then s.topology else none := by
+  unfold dropStageW; cases f.het <;> (repeat' split) <;> simp_all
+theorem dropStageW_cc (dim3 : Bool) (s : Mesh V N) (f : Flags) :
+    (dropStageW dim3 s f).cc = if f.ccf then s.cc else none := by
+  unfold dropStageW; cases f.ccf <;> (repeat' split) <;> simp_all
+theorem dropStageW_pn (dim3 : Bool) (s : Mesh V N) (f : Flags) :
+    (dropStageW dim3 s f).pn = if dim3 && !f.pnFamily then none else s.pn := by
+  unfold dropStageW; cases dim3 <;> cases f.pnFamily <;> (repeat' split) <;> simp_all
+
+theorem dropW_inv [Geo V N] (dim3 : Bool) (s : Mesh V N) (f : Flags) (hc : Coherent dim3 s)
+    (h2 : f.delBad = true → f.het = true ∨ s.flags.delBad = false) :
+    Inv dim3 f (f.diff s.flags).topoFamily (f.diff s.flags).ccf (f.diff s.flags).pnFamily (dropStageW dim3 s f) ∧
+    ((dropStageW dim3 s f).topology = none ∨
+     (dropStageW dim3 s f).topology = topoOf s.vertices.length s.indices) := by
+  unfold Coherent at hc
+  simp only [Mesh.derived, derive, Derived.mk.injEq] at hc
+  obtain ⟨hp, ht, hcc⟩ := hc
+  refine ⟨?_, ?_⟩
+  constructor
+  · intro h
+    have : f.het = false := by
+      cases hh : f.het
+      · rfl
+      · simp [Flags.topoFamily, hh] at h
+    simp [dropStageW_topology, this]
+  · intro h1 hd
+    have hs := diff_topo h1 hd
+    cases hh : f.het
+    · -- only `delBad` asks for the topology: it must be new, contradiction with `hd`
+      exfalso
+      have hb : f.delBad = true := by simpa [Flags.topoFamily, hh] using h1
+      rcases h2 hb with h | h
+      · rw [hh] at h; cases h
+      · have : (f.diff s.flags).topoFamily = true := by simp [Flags.topoFamily, Flags.diff, hb, h]
+        rw [hd] at this; cases this
+    · simp [dropStageW_topology, hh, ht, hs]
+  · intro h; simp [dropStageW_cc, h]
+  · intro h1 hd; simp [dropStageW_cc, h1, hcc, diff_ccf h1 hd]
+  · intro h
+    rw [dropStageW_pn, hp]
+    cases dim3 <;> simp_all
+  · intro h1 hd
+    simp only [Bool.and_eq_true] at h1
+    rw [dropStageW_pn, hp]; simp [h1, diff_pn h1.2 hd]
+  · exact (diff_sub f s.flags).1
+  · exact (diff_sub f s.flags).2.1
+  · exact (diff_sub f s.flags).2.2
+  · rw [dropStageW_topology, ht]
+    cases f.het <;> cases s.flags.topoFamily <;> simp
+
+theorem topoStageW_inv [Geo V N] {dim3 : Bool} {f d : Flags} {s s1 : Mesh V N} {r : Option TopoErr}
+    (hi : Inv dim3 f d.topoFamily d.ccf d.pnFamily s)
+    (ht2 : s.topology = none ∨ s.topology = topoOf s.vertices.length s.indices)
+    (hb : d.topoFamily = true → f.delBad = true → deleteBad s.indices = s.indices)
+    (h : topoStageW s f d = some (s1, r)) :
+    Inv dim3 f false d.ccf d.pnFamily s1 := by
+  unfold topoStageW at h
+  split at h
+  · rename_i hd
+    obtain ⟨ev, ei, e2, e3, _, et⟩ := topoStepW_spec h
+    have hidx : s1.indices = s.indices := by
+      rw [ei]; split
+      · rename_i hdel; exact hb hd hdel
+      · rfl
+    constructor
+    · intro h; have := hi.st hd; simp_all
+    · intro _ _
+      rw [et, ev, hidx]
+      cases hto : topoOf s.vertices.length s.indices with
+      | some t => rfl
+      | none => simp only; rcases ht2 with h | h
+                · exact h
+                · rw [h, hto]
+    · intro h; rw [e2]; exact hi.c0 h
+    · intro h1 h2; rw [e2, ev, hidx]; exact hi.c1 h1 h2
+    · intro h; rw [e3]; exact hi.p0 h
+    · intro h1 h2; rw [e3, ev, hidx]; exact hi.p1 h1 h2
+    · intro h; cases h
+    · exact hi.sc
+    · exact hi.sp
+  · rename_i hd
+    cases h
+    have hd' : d.topoFamily = false := by simpa using hd
+    exact ⟨hi.t0, fun h1 _ => hi.t1 h1 hd', hi.c0, hi.c1, hi.p0, hi.p1, (fun h => by cases h), hi.sc, hi.sp⟩
+
+/-- **as written**: `set_flags` preserves coherence when it adds no merging flag, does not delete a triangle, and does not
+ask for the topology through `DELETE_BAD_TOPOLOGY_TRIANGLES` alone when that flag was already set -/
+theorem setFlagsW_coherent_partial' [Geo V N] {dim3 : Bool} {s s' : Mesh V N} {f : Flags} {r : Option TopoErr}
+    (hc : Coherent dim3 s)
+    (h1 : (f.diff s.flags).mergeFamily = false)
+    (h2 : f.delBad = true → f.het = true ∨ s.flags.delBad = false)
+    (h3 : (f.diff s.flags).topoFamily = true → f.delBad = true → deleteBad s.indices = s.indices)
+    (h : setFlagsW dim3 s f = some (s', r)) : Coherent dim3 s' := by
+  unfold setFlagsW at h
+  simp only [Option.bind_eq_some_iff] at h
+  obtain ⟨s1, hm, ⟨s2, r2⟩, ht, s3, hcs, s4, hps, _, _, h6⟩ := h
+  simp only [Option.some.injEq, Prod.mk.injEq] at h6
+  obtain ⟨rfl, rfl⟩ := h6
+  have hs1 : s1 = dropStageW dim3 s f := by
+    unfold mergeStageW at hm; simp only [h1, Bool.false_eq_true, if_false, Option.some.injEq] at hm; exact hm.symm
+  subst hs1
+  obtain ⟨i0, t2⟩ := dropW_inv dim3 s f hc h2
+  have i2 := topoStageW_inv i0 (by simpa using t2) (by simpa using h3) ht
+  have i3 := ccStage_inv i2 hcs
+  have i4 := pnStage_inv i3 hps
+  exact inv_final i4
+
+/-- **as written**: `reverse` preserves coherence when there are no pseudo-normals, the topology is not kept through
+`DELETE_BAD_TOPOLOGY_TRIANGLES` alone, and the topology computation does not newly fail on the reversed buffer -/
+theorem reverseW_coherent_partial' [Geo V N] {dim3 : Bool} {s s' : Mesh V N}
+    (hc : Coherent dim3 s)
+    (hp : dim3 = true → s.flags.pnFamily = false)
+    (hb : s.flags.delBad = true → s.flags.het = true)
+    (hsym : topoOf s.vertices.length (revIdx s.indices) = none → topoOf s.vertices.length s.indices = none)
+    (h : reverseW dim3 s = some s') : Coherent dim3 s' := by
+  unfold Coherent at hc ⊢
+  simp only [Mesh.derived, derive, Derived.mk.injEq] at hc ⊢
+  obtain ⟨hpn, ht, hcc⟩ := hc
+  have hpn0 : s.pn = none := by
+    rw [hpn]; cases dim3
+    · simp
+    · simp [hp rfl]
+  have hpn1 : (if (dim3 && s.flags.pnFamily) = true then (computePN s.vertices (revIdx s.indices) : Option (PN N)) else none) = none := by
+    cases dim3
+    · simp
+    · simp [hp rfl]
+  unfold reverseW at h
+  have hs2 : (if dim3 = true then
+      ({ ({ s with indices := revIdx s.indices } : Mesh V N) with pn := Option.map (fun x => negPN (V := V) x false) s.pn })
+      else { s with indices := revIdx s.indices }) = ({ s with indices := revIdx s.indices } : Mesh V N) := by
+    cases dim3 <;> simp [hpn0]
+  simp only [hs2] at h
+  split at h
+  · rename_i hh
+    split at h
+    · cases h
+    · rename_i s3 r hts
+      cases h
+      obtain ⟨ev, ei, e2, e3, ef, et⟩ := topoStepW_spec hts
+      simp only [if_false, Bool.false_eq_true] at ev ei e2 e3 ef et hh
+      refine ⟨?_, ?_, ?_⟩
+      · rw [e3, ev, ei, ef, hpn0, hpn1]
+      · rw [et, ev, ei, ef]
+        have htf : s.flags.topoFamily = true := by simp [Flags.topoFamily, hh]
+        simp only [htf, if_true] at ht ⊢
+        cases hto : topoOf s.vertices.length (revIdx s.indices) with
+        | some t => rfl
+        | none => simp only; rw [ht]; exact hsym hto
+      · rw [e2, ev, ei, ef, hcc, computeCC_rev]
+  · rename_i hh
+    cases h
+    simp only at hh ⊢
+    have hh' : s.flags.het = false := by simpa using hh
+    have htf : s.flags.topoFamily = false := by
+      cases hd : s.flags.delBad
+      · simp [Flags.topoFamily, hh', hd]
+      · have := hb hd; rw [hh'] at this; cases this
+    refine ⟨?_, ?_, ?_⟩
+    · rw [hpn0, hpn1]
+    · rw [ht]; simp [htf]
+    · rw [hcc, computeCC_rev]
+
 end C11
